@@ -1,5 +1,5 @@
 (* C17 — SQL conform is idempotent, content-preserving, keeps SELECT markers coherent. *)
-From DR Require Import Model.Reach Proofs.SqlStruct.
+From DR Require Import Model.Reach Proofs.SqlStruct Proofs.SqlRules Proofs.SqlBinary.
 
 (* whatever conform returns is a SELECT marker, and conforming it again returns it unchanged *)
 Theorem C17_conform_returns_select : forall t c, conform t = Ok c -> is_select c = true.
@@ -15,6 +15,15 @@ Proof. exact append_unary_sel_is_select. Qed.
 Theorem C17_append_binary_returns_select : forall b l r s,
   is_select l = true -> is_select r = true -> append_binary_sel b l r = Ok s -> is_select s = true.
 Proof. exact append_binary_sel_is_select. Qed.
+
+(* conforming a raw tree (assembled without the engine's help: leaves, transfers and materializations at the bottom,
+   any unary operations, chains, joins of operands that have columns, already conformed subtrees) returns a
+   conformed relation with the same rows — as a list —, columns and engine; all markers in it are coherent
+   (good_all: marker, skip target and target chain agree and denote the recorded slots) *)
+Theorem C17_conform_preserves_rows : forall env t s,
+  raw_ok env t -> conform t = Ok s ->
+  good_all env s /\ sem_tree env s = sem_tree env t /\ columns s = columns t /\ engine_of s = engine_of t.
+Proof. exact conform_sound. Qed.
 
 (* the marker is flagged compound precisely when its skip target is a chain *)
 Theorem C17_compound_iff_chain : forall sl k t, sel_compound (SelM sl k t) = is_chain k.
